@@ -230,6 +230,8 @@ class Instance:
     @property
     def config_name(self):
         stem = self.fname.split('/')[-1]  # the config name is the file name without directories and extension
+        if getattr(self, 'name_override', None):
+            stem = self.name_override     # (Config(..., name='...') )
         if getattr(self, 'name_prefix', None):
             stem = self.name_prefix + stem    # (a MultiChain member's root config is given a distinct name)
         return f'{stem}#{self.part}' if self.part else stem
@@ -423,7 +425,7 @@ def resolve_input(query, names):
     raise ModelError('ambiguous-input', f'{query} -> {cands}')
 
 
-def build_tasks(case, cfgdir='<cfgdir>', parameter_mode=True, root_name_prefix=None):
+def build_tasks(case, cfgdir='<cfgdir>', parameter_mode=True, root_name_prefix=None, root_name=None):
     """-> {fullname: MTask}; raises ModelError when construction must fail."""
     program = case['program']
     ctx = merged_context(case)
@@ -431,6 +433,8 @@ def build_tasks(case, cfgdir='<cfgdir>', parameter_mode=True, root_name_prefix=N
     insts = compose(case)
     if root_name_prefix and insts:
         insts[0].name_prefix = root_name_prefix
+    if root_name and insts:
+        insts[0].name_override = root_name
     tasks = {}
     for inst in insts:
         inst.data = effective_data(case, inst, ctx, gv)
